@@ -178,3 +178,10 @@ func Snapshot(o tengo.Object) string {
 	snap(&sb, o, map[interface{}]bool{}, 0)
 	return string(sb)
 }
+
+// StateKey is Snapshot plus the captured variables of closures: everything a future step can depend on.
+func StateKey(o tengo.Object) string {
+	var sb []byte
+	snap(&sb, o, map[interface{}]bool{deepFuncs{}: true}, 0)
+	return string(sb)
+}
